@@ -102,6 +102,9 @@ func discharge(o *Obl, dir string, timeout int) {
 	if o.Timeout > 0 && o.Timeout > timeout {
 		timeout = o.Timeout
 	}
+	if o.ExpectSat && timeout > 8 {
+		timeout = 8 // satisfiability (vacuity) checks: an answer within seconds or "inconclusive"
+	}
 	// fast path
 	quick := 4
 	if quick > timeout {
